@@ -161,6 +161,10 @@ class AirTouchSocket(Generic[comms.Hdr]):
         self._writer: Optional[asyncio.StreamWriter] = None
 
         self._message_queue: deque[_MessageQueueEntry[comms.Hdr]] = deque()
+        # Messages taken off the queue whose write has not completed. They are
+        # returned to the queue if the write fails, so they still count towards
+        # the queue capacity.
+        self._writes_in_flight = 0
 
         self._connection_subscribers: set[ConnectionSubscriber] = set()
         self._message_subscribers: set[MessageSubscriber[comms.Hdr]] = set()
@@ -249,7 +253,10 @@ class AirTouchSocket(Generic[comms.Hdr]):
                 del self._message_queue[i]
                 self._log_dropped_message(queued, "expired")
 
-        if len(self._message_queue) >= MAX_MESSAGE_QUEUE_SIZE:
+        if (
+            len(self._message_queue) + self._writes_in_flight
+            >= MAX_MESSAGE_QUEUE_SIZE
+        ):
             raise QueueOverflowError
 
         self._message_queue.append(entry)
@@ -468,6 +475,7 @@ class AirTouchSocket(Generic[comms.Hdr]):
                 entry = self._message_queue.popleft()
 
                 if self._loop.time() < entry.expiry:
+                    self._writes_in_flight += 1
                     try:
                         await self._write(entry.header, entry.message)
                     except OSError:
@@ -481,6 +489,8 @@ class AirTouchSocket(Generic[comms.Hdr]):
                         _LOGGER.exception(
                             "Encoding error for message %s", entry.message
                         )
+                    finally:
+                        self._writes_in_flight -= 1
                 else:
                     self._log_dropped_message(entry, "expired")
 
